@@ -2,6 +2,7 @@ package props
 
 import (
 	"bytes"
+	"encoding/hex"
 	"encoding/json"
 	"fmt"
 	"math"
@@ -31,9 +32,11 @@ type C06Doc struct {
 }
 
 type C06Case struct {
-	Kind string `json:"kind"` // "geom" | "doc" | "feature"
-	G    gm.G   `json:"g"`
-	Doc  C06Doc `json:"doc"`
+	// RawHex: when set the case is a raw document (native fuzzing / replay): decode-encode-decode fixpoint only.
+	RawHex string `json:"raw_hex,omitempty"`
+	Kind   string `json:"kind"` // "geom" | "doc" | "feature"
+	G      gm.G   `json:"g"`
+	Doc    C06Doc `json:"doc"`
 	// feature fields (JSON text so that the case file is exact)
 	ID      string `json:"id,omitempty"`      // JSON text of the id, "" = absent
 	Props   string `json:"props,omitempty"`   // JSON object text, "" = nil map
@@ -565,6 +568,11 @@ func c06Gen(t *rapid.T, cx *h.Ctx) C06Case {
 // ----- checks -----
 
 func c06Check(c C06Case, cx *h.Ctx) *h.Failure {
+	if c.RawHex != "" {
+		b, _ := hex.DecodeString(c.RawHex)
+		cx.Class("raw-document")
+		return c06Raw(b)
+	}
 	cx.Class("kind=" + c.Kind)
 	switch c.Kind {
 	case "doc":
